@@ -196,6 +196,10 @@ impl Seek for SimSource {
         let mut st = self.stats.lock().unwrap();
         let idx = st.seeks;
         st.seeks += 1;
+        if idx >= self.call_cap {
+            st.fire("call_cap");
+            return Err(io::Error::new(ErrorKind::Other, "simulated source call cap reached"));
+        }
         if let Some(k) = self.dead {
             return Err(io::Error::new(k, INJECTED_MSG));
         }
